@@ -157,7 +157,7 @@ def main():
     ck.assumptions = ['well-defined = extracted XSem says Behaviour; others are counted and dropped',
                       'code words = image words that are not DATA directives; free memory = words from the end of the image to 199999',
                       'boundary programs are sized from the measured stack use of the real binary (lowest mem[1] reached on the ISA)',
-                      'proved part (Properties_C08.v): the monitor is complete and sound for ALL runs; and, for the statement fragment '
+                      'proved part (Properties_C08.v): the monitor is complete and sound for ALL runs; and, for the statement fragment (get included: the byte read goes to the outgoing word sp+1) '
                       '(C08_frame_discipline_partial), the code of the model leaves mem[1] and all protected words unchanged and changes memory only in the '
                       "procedure's temporaries, its outgoing area, the free stack below its frame and the words of variables in scope, between statement boundaries; "
                       'and across a call of a procedure or function with value and array formals and var locals that hide no global (C08_call_discipline_partial) control returns to the '
